@@ -571,3 +571,25 @@ pub fn rfc2822_ms(ms: i64) -> String {
 pub fn block_on<F: Future>(rt: &tokio::runtime::Runtime, f: F) -> F::Output {
     rt.block_on(f)
 }
+
+/// Directories of the rotating real-time bucket whose keys can match `prefix` under S3's plain
+/// string-prefix semantics, in bucket (byte-wise key) order. `"SITE/1"` matches directories 1,
+/// 10..19 and 100..199; `"SITE/1/"` matches directory 1 only.
+pub fn matching_dirs(site: &str, prefix: &str) -> Vec<usize> {
+    // fast path: exactly "SITE/<canonical number>/" (plus an optional name prefix)
+    let parts: Vec<&str> = prefix.splitn(3, '/').collect();
+    if parts.len() == 3 && parts[0] == site {
+        if let Ok(d) = parts[1].parse::<usize>() {
+            if parts[1] == d.to_string() && (1..=999).contains(&d) {
+                return vec![d];
+            }
+        }
+        return Vec::new();
+    }
+    let mut dirs: Vec<(String, usize)> = (1..=999usize)
+        .map(|d| (format!("{}/{}/", site, d), d))
+        .filter(|(dp, _)| dp.starts_with(prefix) || prefix.starts_with(dp.as_str()))
+        .collect();
+    dirs.sort();
+    dirs.into_iter().map(|x| x.1).collect()
+}
